@@ -307,6 +307,16 @@ func (r *Runner) newWorker(monitor string) *Worker {
 	return w
 }
 
+// NewWorker creates a worker that the caller drives itself (Begin/End) instead of
+// going through Monitor; call Done when finished.
+func (r *Runner) NewWorker(monitor string) *Worker { return r.newWorker(monitor) }
+
+// Done merges a hand-driven worker's counts into the summary.
+func (r *Runner) Done(w *Worker) { w.End(); r.merge(w) }
+
+// Only returns the replay request (nil in a normal run).
+func (r *Runner) Only() *ReplayFile { return r.only }
+
 // Begin announces the case the worker is about to execute. persist=true also
 // writes it to the slot file so that a fatal runtime error can be attributed.
 func (w *Worker) Begin(c any, persist bool) {
